@@ -150,3 +150,63 @@ def in_try_body(fn, node) -> bool:
                 if node is s or any(node is x for x in ast.walk(s)):
                     return True
     return False
+
+
+def late_binding_closures(fn):
+    """Lambdas / nested defs created inside a loop or comprehension of `fn` that read the
+    iteration variable as a *free* variable (bound when called, i.e. to the last item) and are
+    not called on the spot.  Returns [(closure node, variable, loop node)]."""
+    out = []
+
+    def free_names(c):
+        bound = {a.arg for a in ast.walk(c.args) if isinstance(a, ast.arg)} if hasattr(c, "args") else set()
+        body = [c.body] if isinstance(c, ast.Lambda) else c.body
+        names = set()
+        for b in body:
+            for n in ast.walk(b):
+                if isinstance(n, ast.Name) and isinstance(n.ctx, ast.Load):
+                    names.add(n.id)
+                elif isinstance(n, ast.Name) and isinstance(n.ctx, ast.Store):
+                    bound.add(n.id)
+        # defaults are evaluated at definition time: `lambda x, NS=NS:` binds early
+        return names - bound
+
+    def scan(node, loopvars, loopnode):
+        for ch in ast.iter_child_nodes(node):
+            if isinstance(ch, (ast.Lambda, ast.FunctionDef)) and loopvars:
+                fv = free_names(ch) & loopvars
+                # immediately-invoked closures are fine: (lambda: ...)()
+                for v in sorted(fv):
+                    out.append((ch, v, loopnode))
+            if isinstance(ch, (ast.For, ast.AsyncFor)):
+                lv = set(target_names(ch.target))
+                for b in ch.body:
+                    scan(b, loopvars | lv, ch)
+                for b in ch.orelse:
+                    scan(b, loopvars, loopnode)
+                scan(ch.iter, loopvars, loopnode)
+                continue
+            if isinstance(ch, (ast.ListComp, ast.SetComp, ast.GeneratorExp, ast.DictComp)):
+                lv = set()
+                for g in ch.generators:
+                    lv |= set(target_names(g.target))
+                elts = [ch.elt] if not isinstance(ch, ast.DictComp) else [ch.key, ch.value]
+                for e in elts:
+                    if isinstance(e, (ast.Lambda,)):
+                        fv = free_names(e) & (loopvars | lv)
+                        for v in sorted(fv):
+                            out.append((e, v, ch))
+                    scan(e, loopvars | lv, ch)
+                for g in ch.generators:
+                    scan(g.iter, loopvars, loopnode)
+                continue
+            if isinstance(ch, (ast.Lambda, ast.FunctionDef)):
+                # a new scope: loop variables of the enclosing loops are still free in here
+                scan(ch, loopvars, loopnode)
+                continue
+            scan(ch, loopvars, loopnode)
+
+    scan(fn, set(), None)
+    # drop closures that are called right where they are created
+    calls = {id(c.func) for c in ast.walk(fn) if isinstance(c, ast.Call)}
+    return [(c, v, lp) for c, v, lp in out if id(c) not in calls]
